@@ -1,0 +1,13 @@
+//go:build verif
+
+// Contracts for package murmur, checked by /verif (govc).
+package murmur
+
+// ghostMurmur32 is the specification function MurmurHash3_x86_32(data, seed):
+// a fixed, pure function of the key bytes and the seed.
+var ghostMurmur32 func(data []byte, seed int) uint32
+
+//@ func Hash
+//@   property C05
+//@   trusted
+//@   ensures result == ghostMurmur32(data, seed)
